@@ -82,3 +82,14 @@ Theorem C09_posed_ellipsoid_problem_has_the_closed_form : forall n W E1 E2 M1 M2
             - e_alpha E1 * sqrt (rnorm2 (rtmatvec M1 w)) - e_alpha E2 * sqrt (rnorm2 (rtmatvec M2 w)))%R).
 Proof. exact gen_ell_is_dominated_closed_form. Qed.
 Print Assumptions C09_posed_ellipsoid_problem_has_the_closed_form.
+
+(* the regenerated dispatcher: the class of the FIRST region selects the rectangle or the ellipsoid predicate, and the arguments
+   are handed over unchanged *)
+From VOPy Require ExtraRefine4.
+From VOPyGen Require Gen_extra4.
+Theorem C09_dispatch_selects_the_predicate_of_the_region_class : forall (A : Type) (rect ell : A),
+  Gen_extra4.gen_dispatch A rect ell Gen_extra4.RectRegion = Some rect /\
+  Gen_extra4.gen_dispatch A rect ell Gen_extra4.EllRegion = Some ell /\
+  Gen_extra4.gen_dispatch A rect ell Gen_extra4.OtherRegion = None.
+Proof. exact ExtraRefine4.gen_dispatch_spec. Qed.
+Print Assumptions C09_dispatch_selects_the_predicate_of_the_region_class.
